@@ -492,7 +492,11 @@ func SetSlice(dest reflect.Value, objects interface{}) error {
 			return err
 		}
 		SetValue(dest, v)
-		ref.change(v) // change finally
+		if v.IsValid() {
+			ref.change(v) // change finally
+		}
+		// (an empty list converts to no value: the holder keeps the empty list
+		// it has, for a later reference to it in value position)
 		ref.notify()
 		return nil
 	}
